@@ -14,7 +14,7 @@ from sx import Sym, Str
 
 PROP = "C06"
 PROP_FILE = "C06_Formats"
-THEOREMS = ['c06_est_expr', 'c06_est_conditions_none', 'c06_est_conditions', 'c06_est_policy']
+THEOREMS = ['c06_est_expr', 'c06_est_conditions_none', 'c06_est_conditions', 'c06_est_policy', 'c06_est_links']
 
 MANIFEST = {
     "text": "Round trips of policies, templates and linked policy sets through JSON (EST), PST and protobuf are checked on the implementation (equal structural dumps of ids/effects/annotations/scope/conditions/link bindings and equal authorization responses), together with the agreement of the two text->JSON routes and of JSON policies with their printed text; the EST expression/policy conversions are modelled in Gallina (Json.v, Est.v) and est_to_ast (ast_to_est p) = Ok p is proved for the JSON-representable fragment; the model is tied to /repo by differential execution on generated and mutated JSON.",
